@@ -36,6 +36,14 @@ func main() {
 		runStoreLevel(f, res)
 		lib.Finish(f, res)
 	}
+	if os.Getenv("C02_ONLY") == "class" {
+		runClassHash(f, res)
+		lib.Finish(f, res)
+	}
+	if os.Getenv("C02_ONLY") == "bodylen" {
+		runBodyLen(f, res, nil)
+		lib.Finish(f, res)
+	}
 	if os.Getenv("C02_ONLY") == "net" {
 		runNetBoundaries(f, res, nil)
 		lib.Finish(f, res)
@@ -60,6 +68,9 @@ func main() {
 		tNet := time.Now()
 		runNetBoundaries(f, res, nil)
 		res.SetExtra("network_boundaries_phase_seconds", time.Since(tNet).Seconds())
+		tBody := time.Now()
+		runBodyLen(f, res, nil)
+		res.SetExtra("body_length_phase_seconds", time.Since(tBody).Seconds())
 	}()
 
 	// hash correspondence and fixtures run next to the first tamper pass (own driver process)
@@ -78,7 +89,10 @@ func main() {
 		runFixtures(f, res, drv)
 		drv.Close()
 		runClassFixtures(f, res)
-		res.SetExtra("phase_seconds", map[string]float64{"hash_correspondence": t1.Sub(t0).Seconds(), "fixtures": time.Since(t1).Seconds()})
+		t2 := time.Now()
+		runClassHash(f, res)
+		res.SetExtra("phase_seconds", map[string]float64{"hash_correspondence": t1.Sub(t0).Seconds(), "fixtures": t2.Sub(t1).Seconds(),
+			"class_hash": time.Since(t2).Seconds()})
 	}()
 
 	// phase 2: a directed history first (its report is the most detailed one), then independent
@@ -191,6 +205,17 @@ func runReplay(f lib.Flags, res *lib.Result) {
 		return
 	}
 	rp := doc.Replay
+	if rp.Task.Chain == bodyLenChain || rp.Task.Chain == bodyLenChain+1 {
+		ff := f
+		if rp.Seed != 0 {
+			ff.Seed = rp.Seed
+		}
+		if rp.Tier != "" {
+			ff.Tier = rp.Tier
+		}
+		runBodyLen(ff, res, &rp)
+		return
+	}
 	if rp.Task.Chain == 200 {
 		ff := f
 		if rp.Seed != 0 {
